@@ -80,6 +80,33 @@ CHECKS = {
         "Trusted: the CaptureStore wrapper; corpus re-pins are documented in corpus/C03/REPINS.md.",
         "DESIGN.md 5/C03",
     ),
+    "C04": (
+        "exploration",
+        "Hypothesis-generated programs x histories (edits, reverts, restarts, evaluation by a second process, path changes) x "
+        "store kinds against a dict model path->value; load in same/fresh process; data-directory file bytes",
+        "After every evaluation of every generated history each path kept so far is loaded (same and fresh process) and compared with "
+        "the model; text/bytes results are compared with the file under the data directory.",
+        "Trusted: the dict model and the reference interpreter; DBFS judged against the fake dbutils.",
+        "DESIGN.md 5/C04",
+    ),
+    "C09": (
+        "exploration",
+        "Hypothesis-generated load placements x producer kinds x orders x edit histories x stores; oracles: reference interpreter with "
+        "program-order load semantics, reader re-execution iff the served value is new, DDS error on read-before-produce (static and dynamic order)",
+        "Every generated pipeline/history is run by real dds; values, the execution log of the kept reader and the rejection of "
+        "read-before-produce are checked; a templated sub-domain covers loads that run before a keep that precedes them in the source.",
+        "Trusted: the reference interpreter; never-produced loads must fail with a DDSException of any code.",
+        "DESIGN.md 5/C09",
+    ),
+    "C10": (
+        "fault_enumeration",
+        "Hypothesis-generated programs x every reachable function as the failing one x 8 exception classes x follow-ups; oracles: "
+        "exception object identity, store traffic vs signatures from a fault-free twin, clean context, follow-ups == model",
+        "A fault (exception raised from a chosen user function) is injected into generated pipelines; the store traffic captured "
+        "through the Store interface and the directory contents are compared with what the model says had completed before the fault.",
+        "Trusted: signatures from the twin run (store independence is C03); the model of which kept nodes are served or completed at the failure point.",
+        "DESIGN.md 5/C10",
+    ),
 }
 
 NOT_YET = {}
